@@ -48,8 +48,8 @@ PROPS = {
         ['PgModel is a conservative model of scan.l/gram.y validated one-directionally against pg_query in design; not re-validated at run time']),
     'C03': P(
         [],
-        [('corpus', 0), ('rand', 4000)],
-        [('corpus', 0), ('rand', 60000)],
+        [('corpus', 0), ('sem', 5000), ('rand', 2000)],
+        [('corpus', 0), ('sem', 80000), ('rand', 20000)],
         PARSE + ['Render', 'ToPostgres'],
         'not proved yet: decided by the executable semantics (query semantics vs SQL semantics on probe rows) over generated fragment trees; see DESIGN C03',
         'fragment trees (equality, comparisons, ranges with every bound kind x inclusivity, value lists, patterns, AND/OR/NOT/+/-), each evaluated on probe rows hitting every region cut out by the constants',
@@ -57,8 +57,8 @@ PROPS = {
         ['PostgreSQL reading of the SQL text is the PgModel one'], level='other'),
     'C04': P(
         ['C04_placeholders_match_parameters', 'C04_render_param_returns'],
-        [('corpus', 0), ('rand', 5000), ('subst', 1500), ('quote', 1500)],
-        [('corpus', 0), ('rand', 60000), ('subst', 20000), ('quote', 20000)],
+        [('corpus', 0), ('rand', 4000), ('subst', 1500), ('quote', 1000), ('sem', 2500)],
+        [('corpus', 0), ('rand', 60000), ('subst', 20000), ('quote', 20000), ('sem', 40000)],
         PARSE + SQL,
         'partial: clause (a) placeholder count = parameter count proved for every tree of parser shape outside K13; RenderParam total. Clauses (b) parameters = values in order with kinds, (c) equivalence after substitution, (d) SQL text independent of values: decided by C04_check on the implementation observations (and by the correspondence).',
         'random structured queries, same-kind value substitutions (pairs), quoted/escaped values; non-trivial = both renderers succeeded',
@@ -75,7 +75,7 @@ PROPS = {
         []),
     'C06': P(
         ['C06_accepted_tree_is_a_derivation'],
-        [('corpus', 0), ('enum', 1500), ('rand', 5000)],
+        [('corpus', 0), ('enum', 1500), ('rand', 5000), ('lex', 1500)],
         [('corpus', 0), ('enum', 30000), ('rand', 80000)],
         PARSE,
         'full: every accepted token list is laid over by its tree as a derivation (Lay), for all token lists.',
